@@ -342,6 +342,7 @@ func (th *Thread) callBuiltin(caller *frame, callpos token.Pos, fn *ssa.Builtin,
 			if x == nil {
 				return p.BV(0, 64)
 			}
+			e.access(th, &x.cell, false)
 			return p.BV(uint64(len(x.ents)), 64)
 		case *Chan:
 			if x == nil {
